@@ -8,13 +8,13 @@ ID = 'C13'
 LEVEL = 'exploration'
 TIERS = {'quick': 12000, 'thorough': 600000}
 RULE = ('seeded sequences (length <= 6) over {connect-ok, connect-fail(transport refused | transport timeout | CNXN never answered | AUTH without keys | '
-        'non-token challenge), close, shell, exec_out, streaming_shell, root, reboot, list, stat, pull(path|BytesIO), push(path|BytesIO|directory), streaming_shell generators created in one state and iterated in another} with empty and '
+        'non-token challenge), close, shell, exec_out, streaming_shell, root, reboot, list, stat, pull(path|BytesIO), push(path|BytesIO|directory), streaming_shell generators created in one state and iterated in another, or read half-way and let go of (close() / last reference dropped) after the connection went away; close() calls whose transport close raises} with empty and '
         'non-empty device paths, sync and async, against a two-state reference model of `available`; in the not-connected state every operation must raise '
         'AdbConnectionError (empty path: DevicePathInvalidError, in either state), the transport write log must not grow by one byte, no transport call may be '
         'made and the pull destination must not exist afterwards. non-trivial = the sequence contains a failed connect followed by an operation; '
         'distinct = event-log digests')
 ASSUMPTIONS = ['the <=5-step space is sampled by seed, not enumerated']
-EXPECT_PROBES = {'all': ['c13_failed_connect_then_op', 'c13_op_after_close', 'c13_empty_path', 'c13_reconnect_ok', 'c13_deferred_generator']}
+EXPECT_PROBES = {'all': ['c13_failed_connect_then_op', 'c13_op_after_close', 'c13_empty_path', 'c13_reconnect_ok', 'c13_deferred_generator', 'c13_half_read_generator_dropped_unconnected', 'c13_transport_close_raised']}
 OPS = ['shell', 'exec_out', 'streaming_shell', 'streaming_shell', 'root', 'reboot', 'list', 'stat', 'pull', 'push']
 OWN = ('wrong-result', 'unexpected-exception', 'timeout-instead-of-result', 'missing-exception', 'wrong-exception', 'hang', 'no-termination',
        'bytes-written-unconnected', 'transport-call-unconnected', 'file-created-unconnected', 'available-wrong', 'push-content', 'push-missing', 'push-incomplete')
@@ -54,7 +54,7 @@ def generate(seed, tier):
                 sess += 1
             ops.append(op)
         elif c == 3:
-            ops.append({'op': 'close'})
+            ops.append({'op': 'close', 'fail': True} if g.chance(0.25) else {'op': 'close'})
         else:
             k = g.pick(OPS)
             if k in ('shell', 'exec_out', 'streaming_shell'):
@@ -78,6 +78,19 @@ def generate(seed, tier):
             if 'path' in op and g.chance(0.15):
                 op['path'] = ''
             op['rt'] = 2.0
+            if op['op'] == 'streaming_shell' and g.chance(0.3):
+                # the generator is read half-way, the connection goes away, and then the caller lets go of the generator
+                d['cmds'][op['cmd']]['content']['size'] = max(d['cmds'][op['cmd']]['content'].get('size', 0), g.int(20, 400))
+                ops.append({'op': 'ss_create', 'cmd': op['cmd'], 'decode': op['decode'], 'rt': 2.0})
+                ops.append({'op': 'ss_next', 'n': g.int(1, 2), 'rt': 2.0})
+                c2 = g.int(0, 3)
+                if c2 <= 1:
+                    ops.append({'op': 'close', 'fail': True} if g.chance(0.2) else {'op': 'close'})
+                elif c2 == 2:
+                    ops.append({'op': 'connect', 'expect_connect': 'refused', 'rt': 0.5, 'tt': 0.2, 'at': 0.3})
+                    plan.append('refused')
+                ops.append({'op': 'ss_drop', 'how': g.pick(['close', 'del'])})
+                continue
             if op['op'] == 'streaming_shell' and g.chance(0.5):
                 # the generator is created now and iterated later: the connection may change in between
                 ops.append({'op': 'ss_create', 'cmd': op['cmd'], 'decode': op['decode'], 'rt': 2.0})
@@ -112,6 +125,8 @@ def evaluate(case, tapes=None):
         k = op['op']
         if rec.get('exc') in ('SimAbort', 'SimHang'):
             break
+        if k == 'close' and op.get('fail'):
+            pr['c13_transport_close_raised'] = 1
         if k == 'connect':
             connected = op.get('expect_connect') == 'ok'
             last_connect_failed = not connected
@@ -125,6 +140,8 @@ def evaluate(case, tapes=None):
         else:
             if k == 'ss_consume':
                 pr['c13_deferred_generator'] = 1
+            if k == 'ss_drop' and not connected and i >= 2 and run.results[0][i - 2]['op'] == 'ss_next' and run.results[0][i - 2]['ok'] and run.results[0][i - 2]['value']:
+                pr['c13_half_read_generator_dropped_unconnected'] = 1
             if not connected:
                 if last_connect_failed:
                     failed_then_op = True
